@@ -78,7 +78,7 @@ def wrong_single(op, x, v):
     return not (x == v["c0"] or x == v["c1"])
 
 
-def shared_case(op, fbits, vals, order):
+def shared_case(op, fbits, vals, order, empty=False):
     """the same snapshot() call site (inside a helper) is executed by two test items with different values: each
     item is judged on its own comparison (incorrect_values is per item, the snapshot object lives for the session)"""
     if op in ("eq", "gi"):
@@ -89,6 +89,8 @@ def shared_case(op, fbits, vals, order):
     W.no_canon = True
     try:
         arg = {"eq": "c0", "le": "c0", "ge": "c0", "in": "[c0, c1]", "gi": "{1: c0}"}[op]
+        if empty:
+            arg = ""
         cmpx = {"eq": "x == snapshot({a})", "le": "x <= snapshot({a})", "ge": "x >= snapshot({a})", "in": "x in snapshot({a})", "gi": "snapshot({a})[1] == x"}[op].format(a=arg)
         first, second = ("x0", "x1") if order else ("x1", "x0")
         t = HEAD + f"def check(x):\n    assert {cmpx}\n\ndef test_a():\n    check({first})\n\ndef test_b():\n    check({second})\n"
@@ -102,7 +104,9 @@ def shared_case(op, fbits, vals, order):
     ob = r.outcomes.get(("test_a.py", "test_b"))
     va, vb = (vals["x0"], vals["x1"]) if order else (vals["x1"], vals["x0"])
     wa, wb = wrong_single(op, va, vals), wrong_single(op, vb, vals)
-    PathLog.record(f"shared{op}{flags}{oa}{ob}", nontrivial=True, sample={"shared_call_site": op, "flags": flags, "outcomes": [oa, ob], "wrong": [bool(wa), bool(wb)]})
+    if empty:
+        wa = wb = True  # a missing value: every item that executes the snapshot is failed or errored
+    PathLog.record(f"shared{op}{empty}{flags}{oa}{ob}", nontrivial=True, sample={"shared_call_site": op, "flags": flags, "outcomes": [oa, ob], "wrong": [bool(wa), bool(wb)]})
     return (oa != "passed") == wa and (ob != "passed") == wb
 
 
@@ -145,6 +149,13 @@ def conditions(tier):
                         fn = mkfn(name, fb + [(n, "int") for n in VALS], body, GLB, pre=pre)
                         conds.append(Cond(name, fn, timeout=900, group="green",
                                           bounds=f"3 snapshots in one test; subject `{op}` at position {pos}, {'empty' if empty else 'with argument'}; all 8 values symbolic; fix={fix}, create={create}, every subset of trim/update/review{'/report' if not q else ''}"))
+    for op in SUBJECT:
+        for create in (False, True):
+            body = f"return shared_case({op!r}, [f0, f1, f2, f3, f4, f5], {{'c0': c0, 'c1': c1, 'x0': x0, 'x1': x1}}, order, True)"
+            name = f"shared_empty_{op}_{'create' if create else 'nocreate'}"
+            fn = mkfn(name, fb + [("c0", "int"), ("c1", "int"), ("x0", "int"), ("x1", "int"), ("order", "bool")], body, GLB, pre=[f"f0 == {create} and not f5"])
+            conds.append(Cond(name, fn, timeout=900, group="shared",
+                              bounds=f"one *empty* `{op}` snapshot call site inside a helper executed by two test items (equal or different symbolic values); create={create}, every subset of fix/trim/update/review"))
     for op in SUBJECT:
         for fix in (False, True):
             body = f"return shared_case({op!r}, [f0, f1, f2, f3, f4, f5], {{'c0': c0, 'c1': c1, 'x0': x0, 'x1': x1}}, order)"
